@@ -39,6 +39,18 @@ const (
 	keyF14 = "F14:acked-change-lost-at-stop:queued"
 )
 
+// failOnce keeps the report's (capped) failure list representative: at most 3 entries per key, the rest counted.
+var failCount = map[string]int{}
+
+func failOnce(rep *common.Report, f common.OracleFailure) {
+	failCount[f.Key]++
+	if failCount[f.Key] <= 3 {
+		rep.Fail(f)
+	} else {
+		rep.Count("ORACLE-FAIL:" + f.Key)
+	}
+}
+
 // ---------- engine persist ----------
 
 type SaveCase struct {
@@ -331,12 +343,12 @@ func evalSaveJobs(base string, jobs []*saveJob, o *common.Options, rep *common.R
 			if rm.present && bytes.HasPrefix(j.newDoc, rm.target) && len(rm.target) < len(j.newDoc) {
 				key = keyF13
 			}
-			rep.Fail(common.OracleFailure{Engine: "persist", Key: key, Case: c,
+			failOnce(rep, common.OracleFailure{Engine: "persist", Key: key, Case: c,
 				Detail: fmt.Sprintf("store of %d users, %s %q, %s at byte %d of %d: store file now holds %d bytes; start-up loader: %s (%v); expected the old or the new user set",
 					len(c.Users), c.Change.Op, c.Change.Name, map[string]string{"kill": "process killed", "efbig": "write error (EFBIG)"}[c.Mode], c.Limit, len(j.newDoc), len(rm.target), verdict, lerr)})
 		}
 		if !cut && verdict != "new" && oldSet != newSet {
-			rep.Fail(common.OracleFailure{Engine: "persist", Key: "save-without-fault-not-written", Case: c,
+			failOnce(rep, common.OracleFailure{Engine: "persist", Key: "save-without-fault-not-written", Case: c,
 				Detail: fmt.Sprintf("no fault injected (limit %d >= %d) but the loader sees %s", c.Limit, len(j.newDoc), verdict)})
 		}
 	}
@@ -367,9 +379,12 @@ func expand(base string, users []User, pskLen int, ch Change, idx *int) ([]*save
 
 func enginePersist(base string, o *common.Options, rep *common.Report) error {
 	r := common.NewRng(o.Seed)
-	maxUsers := o.Budget(3, 8)
-	if o.Search {
-		maxUsers = 5
+	maxUsers := 3
+	switch {
+	case o.Thorough():
+		maxUsers = 6
+	case o.Search:
+		maxUsers = 4
 	}
 	ops := []string{"add", "del", "upd"}
 	idx := 0
@@ -378,7 +393,7 @@ func enginePersist(base string, o *common.Options, rep *common.Report) error {
 	for n := 0; n <= maxUsers; n++ {
 		variants := 1
 		if o.Thorough() {
-			variants = 3
+			variants = 2
 		}
 		for v := 0; v < variants; v++ {
 			rr := r.Fork(uint64(gi))
@@ -606,7 +621,7 @@ func evalStop(base string, cases []StopCase, o *common.Options, rep *common.Repo
 			}
 		}
 		if lost > 0 {
-			rep.Fail(common.OracleFailure{Engine: "stop", Key: "F14:acked-change-lost-at-stop:" + phase, Case: c,
+			failOnce(rep, common.OracleFailure{Engine: "stop", Key: "F14:acked-change-lost-at-stop:" + phase, Case: c,
 				Detail: fmt.Sprintf("script %s: %d changes acknowledged before the cancellation, but after Stop the file held store version %s in %d of %d runs (GOMAXPROCS=%d): %v",
 					strings.Join(c.Tokens, " "), res.Acked, worst, lost, c.Reps, c.Procs, res.Versions)})
 		}
@@ -616,7 +631,13 @@ func evalStop(base string, cases []StopCase, o *common.Options, rep *common.Repo
 
 func engineStop(base string, o *common.Options, rep *common.Report) error {
 	r := common.NewRng(o.Seed ^ 0x5107)
-	reps := o.Budget(40, 400)
+	reps, nRandom := 40, 30
+	switch {
+	case o.Thorough():
+		reps, nRandom = 200, 300
+	case o.Search:
+		reps, nRandom = 100, 100
+	}
 	var cases []StopCase
 	mk := func(tokens string, procs int, nInit int, i int) StopCase {
 		rr := r.Fork(uint64(1000 + i))
@@ -642,8 +663,7 @@ func engineStop(base string, o *common.Options, rep *common.Report) error {
 			i++
 		}
 	}
-	n := o.Budget(30, 300)
-	for k := 0; k < n; k++ {
+	for k := 0; k < nRandom; k++ {
 		rr := r.Fork(uint64(k))
 		procs := 1
 		if rr.Bool() {
@@ -675,7 +695,7 @@ func main() {
 	o := common.ParseFlags()
 	rep := common.NewReport("C20", o)
 	rep.Engines = []string{"persist", "stop"}
-	rep.Rule = "engine persist: stores of 0..N users (N=3 quick, 8 thorough; names with JSON-special characters) x one API change (add/delete/update) x RLIMIT_FSIZE = every byte count 0..len(new document) x {process killed by SIGXFSZ, write returns EFBIG}, each in its own child process running the real cred.Manager; " +
+	rep.Rule = "engine persist: stores of 0..N users (N=3 quick, 6 thorough with two stores per size and 16/32-byte keys; names with JSON-special characters) x one API change (add/delete/update) x RLIMIT_FSIZE = every byte count 0..len(new document) x {process killed by SIGXFSZ, write returns EFBIG}, each in its own child process running the real cred.Manager; " +
 		"non-trivial = the limit cuts the document; distinct by (store, change, mode, limit). engine stop: shutdown scripts over {change, Wait, cool-down, cancel, Stop} under testing/synctest, repeated (select is random), GOMAXPROCS 1 and all cores; non-trivial = at least one change acknowledged before the cancellation"
 	base, err := os.MkdirTemp("", "c20-corr-")
 	if err == nil {
